@@ -12,6 +12,7 @@
 #include "c03_util.h"
 
 static long NK = 3, NV = 2;
+static long rb_count;         /* read-backs so far in this script: rotates the class of the probe objects */
 static int compact = 0;
 static spif_map_t A, B;
 static spif_iterator_t IT;
@@ -43,6 +44,7 @@ static void sb_pair(vh_sb *b, spif_obj_t o) {
 static const char *readback(spif_map_t M, const char *which, vh_sb *out) {
     static long vals[1 << 14];
     long n = (long) SPIF_MAP_COUNT(M), k, v, m = 0, i;
+    rb_count++;
     spif_list_t L;
     spif_iterator_t it;
     const char *inv;
@@ -50,7 +52,8 @@ static const char *readback(spif_map_t M, const char *which, vh_sb *out) {
     if (n < 0 || n > NK) CU_FAIL("%s:count=%ld", which, n);
     /* get / has_key of every key of the universe, of a probe below the minimum and of one above the maximum */
     for (k = 0; k <= NK + 1; k++) {
-        spif_obj_t probe = cu_mk(k), r = SPIF_MAP_GET(M, probe);
+        /* the probe's class (str / url with the same text) alternates from key to key and from read-back to read-back */
+        spif_obj_t probe = cu_mkc(k, 1 + ((k + rb_count) & 1)), r = SPIF_MAP_GET(M, probe);
         spif_bool_t h = SPIF_MAP_HAS_KEY(M, probe);
         if (cu_val(probe) != k) CU_FAIL("%s:probe_key_changed_by_get", which);
         SPIF_OBJ_DEL(probe);
@@ -67,11 +70,11 @@ static const char *readback(spif_map_t M, const char *which, vh_sb *out) {
     if (m != n) CU_FAIL("%s:count=%ld_but_get_finds=%ld", which, n, m);
     /* has_value of every value and of one no map holds */
     for (v = 1; v <= NV + 1; v++) {
-        spif_obj_t probe = cu_mk(v); int want = 0;
+        spif_obj_t probe = cu_mkc(v, 1 + ((v + rb_count) & 1)); int want = 0;
         spif_bool_t h = SPIF_MAP_HAS_VALUE(M, probe);
         SPIF_OBJ_DEL(probe);
         for (k = 1; k <= NK; k++) if (vals[k] == v) want = 1;
-        if ((h ? 1 : 0) != want) CU_FAIL("%s:has_value_wrong", which);
+        if ((h ? 1 : 0) != want) CU_FAIL("%s:has_value_wrong(%s_probe)", which, ((v + rb_count) & 1) ? "url" : "str");
     }
     /* the three listings: ascending by key, every entry once */
     L = SPIF_MAP_GET_KEYS(M, (spif_list_t) NULL);
@@ -130,6 +133,7 @@ static const char *readback(spif_map_t M, const char *which, vh_sb *out) {
 static const char *readback_compact(spif_map_t M, const char *which, vh_sb *out) {
     static long keys[1 << 15], vals[1 << 15];
     long n = (long) SPIF_MAP_COUNT(M), i, v, gap = -1, pos[5], np = 0, probes[8], npr = 0, q;
+    rb_count++;
     spif_list_t L;
     spif_iterator_t it;
     const char *inv;
@@ -159,7 +163,7 @@ static const char *readback_compact(spif_map_t M, const char *which, vh_sb *out)
     if (n > 0) { pos[np++] = 0; pos[np++] = n > 1 ? 1 : 0; pos[np++] = n / 2; pos[np++] = n > 1 ? n - 2 : 0; pos[np++] = n - 1; }
     for (q = 0; q < np; q++) {
         static const char *pc[] = {"smallest", "second", "middle", "next_to_largest", "largest"};
-        spif_obj_t probe = cu_mk(keys[pos[q]]), r = SPIF_MAP_GET(M, probe);
+        spif_obj_t probe = cu_mkc(keys[pos[q]], 1 + ((q + rb_count) & 1)), r = SPIF_MAP_GET(M, probe);
         spif_bool_t h = SPIF_MAP_HAS_KEY(M, probe);
         SPIF_OBJ_DEL(probe);
         if (SPIF_OBJ_ISNULL(r) || !h) CU_FAIL("%s:get_misses_a_present_key(%s)", which, pc[q]);
@@ -170,17 +174,17 @@ static const char *readback_compact(spif_map_t M, const char *which, vh_sb *out)
     if (n > 0 && keys[0] > 1) probes[npr++] = keys[0] - 1;
     if (n > 0 && keys[n - 1] < NK) probes[npr++] = keys[n - 1] + 1;
     for (q = 0; q < npr; q++) {
-        spif_obj_t probe = cu_mk(probes[q]), r = SPIF_MAP_GET(M, probe);
+        spif_obj_t probe = cu_mkc(probes[q], 1 + ((q + rb_count) & 1)), r = SPIF_MAP_GET(M, probe);
         spif_bool_t h = SPIF_MAP_HAS_KEY(M, probe);
         SPIF_OBJ_DEL(probe);
         if (!SPIF_OBJ_ISNULL(r) || h) CU_FAIL("%s:get_finds_an_absent_key", which);
     }
     for (v = 1; v <= NV + 1; v++) {
-        spif_obj_t probe = cu_mk(v); int want = 0;
+        spif_obj_t probe = cu_mkc(v, 1 + ((v + rb_count) & 1)); int want = 0;
         spif_bool_t h = SPIF_MAP_HAS_VALUE(M, probe);
         SPIF_OBJ_DEL(probe);
         for (i = 0; i < n; i++) if (vals[i] == v) { want = 1; break; }
-        if ((h ? 1 : 0) != want) CU_FAIL("%s:has_value_wrong", which);
+        if ((h ? 1 : 0) != want) CU_FAIL("%s:has_value_wrong(%s_probe)", which, ((v + rb_count) & 1) ? "url" : "str");
     }
     /* the three listings */
     for (q = 0; q < 3; q++) {
@@ -204,6 +208,27 @@ static const char *readback_compact(spif_map_t M, const char *which, vh_sb *out)
     return NULL;
 }
 
+/* C05: immediately after dup the copy holds, pair by pair, distinct objects of the SAME classes and values as the original */
+static const char *dup_pairs_equal(void) {
+    spif_iterator_t ia = SPIF_MAP_ITERATOR(A), ib = SPIF_MAP_ITERATOR(B);
+    const char *bad = NULL;
+    while (!bad && SPIF_ITERATOR_HAS_NEXT(ia)) {
+        spif_obj_t x, y;
+        if (!SPIF_ITERATOR_HAS_NEXT(ib)) { bad = "dup_is_shorter"; break; }
+        x = SPIF_ITERATOR_NEXT(ia); y = SPIF_ITERATOR_NEXT(ib);
+        if (!SPIF_OBJ_IS_OBJPAIR(x) || !SPIF_OBJ_IS_OBJPAIR(y)) bad = "dup_pair_is_not_a_pair";
+        else if (x == y || SPIF_OBJPAIR(x)->key == SPIF_OBJPAIR(y)->key || SPIF_OBJPAIR(x)->value == SPIF_OBJPAIR(y)->value)
+            bad = "dup_shares_an_object_with_the_original";
+        else if (SPIF_OBJ_CLASS(SPIF_OBJPAIR(x)->key) != SPIF_OBJ_CLASS(SPIF_OBJPAIR(y)->key)) bad = "dup_changed_the_class_of_a_key";
+        else if (SPIF_OBJ_CLASS(SPIF_OBJPAIR(x)->value) != SPIF_OBJ_CLASS(SPIF_OBJPAIR(y)->value)) bad = "dup_changed_the_class_of_a_value";
+        else if (cu_val(SPIF_OBJPAIR(x)->key) != cu_val(SPIF_OBJPAIR(y)->key) || cu_val(SPIF_OBJPAIR(x)->value) != cu_val(SPIF_OBJPAIR(y)->value))
+            bad = "dup_pair_differs";
+    }
+    if (!bad && SPIF_ITERATOR_HAS_NEXT(ib)) bad = "dup_is_longer";
+    SPIF_ITERATOR_DEL(ia); SPIF_ITERATOR_DEL(ib);
+    return bad;
+}
+
 /* the map's OWN pair object for key k (as its iterator hands it out), or NULL */
 static spif_objpair_t own_pair(spif_map_t M, long k) {
     spif_iterator_t it = SPIF_MAP_ITERATOR(M);
@@ -218,6 +243,7 @@ static spif_objpair_t own_pair(spif_map_t M, long k) {
 
 static void vh_begin(void) {
     cu_begin_script(vh_cur_sid);
+    rb_count = 0;
     A = new_map(); B = (spif_map_t) NULL; IT = (spif_iterator_t) NULL; it_count = -1; held = 0;
     HK = HV = (spif_obj_t) NULL;
 }
@@ -274,7 +300,7 @@ static const char *vh_step(const vh_step_t *st, vh_sb *ret, vh_sb *state) {
     if (op[0] == 'b' && op[1] == '_') { M = B; onb = 1; op += 2; if (OP("del")) op = "b_del"; }
 
     if (OP("set") || OP("set_keep")) {
-        spif_obj_t k = cu_mk(vh_int(st->args[0])), v = cu_mk(vh_int(st->args[1]));
+        spif_obj_t k = cu_mkc(vh_int(st->args[0]), cu_clsarg(st, 2)), v = cu_mkc(vh_int(st->args[1]), cu_clsarg(st, 3));
         spif_bool_t r = SPIF_MAP_SET(M, k, v);
         sb_bool(ret, r);
         if (OP("set_keep")) {
@@ -285,7 +311,7 @@ static const char *vh_step(const vh_step_t *st, vh_sb *ret, vh_sb *state) {
             SPIF_OBJ_DEL(k); SPIF_OBJ_DEL(v);
         }
     } else if (OP("set_pair")) {
-        spif_obj_t k = cu_mk(vh_int(st->args[0])), v = cu_mk(vh_int(st->args[1]));
+        spif_obj_t k = cu_mkc(vh_int(st->args[0]), cu_clsarg(st, 2)), v = cu_mkc(vh_int(st->args[1]), cu_clsarg(st, 3));
         spif_objpair_t p = spif_objpair_new_from_both(k, v);
         spif_bool_t r;
         SPIF_OBJ_DEL(k); SPIF_OBJ_DEL(v);
@@ -302,13 +328,27 @@ static const char *vh_step(const vh_step_t *st, vh_sb *ret, vh_sb *state) {
         r = SPIF_MAP_SET(M, k, v);
         sb_bool(ret, r);
         cu_scribble(k); SPIF_OBJ_DEL(k);
+    } else if (OP("set_component")) {
+        /* aliasing at depth 2: the value argument is a COMPONENT object (host) of the url the map stores under j, if that
+         * value is a url whose host carries the whole text; otherwise the stored value itself */
+        spif_obj_t k = cu_mk(vh_int(st->args[0])), j = cu_mk(vh_int(st->args[1])), v = SPIF_MAP_GET(M, j);
+        spif_bool_t r;
+        SPIF_OBJ_DEL(j);
+        if (SPIF_OBJ_ISNULL(v)) { SPIF_OBJ_DEL(k); return "set_component:source_key_absent"; }
+        if (SPIF_OBJ_IS_URL(v) && !SPIF_STR_ISNULL(SPIF_URL(v)->host)
+            && !strcmp((const char *) SPIF_STR_STR(SPIF_URL(v)->host), (const char *) SPIF_STR_STR(SPIF_STR(v)))) {
+            v = SPIF_OBJ(SPIF_URL(v)->host);
+        }
+        r = SPIF_MAP_SET(M, k, v);
+        sb_bool(ret, r);
+        cu_scribble(k); SPIF_OBJ_DEL(k);
     } else if (OP("set_own_pair")) {
         spif_objpair_t p = own_pair(M, vh_int(st->args[0]));
         if (SPIF_OBJPAIR_ISNULL(p)) return "set_own_pair:key_absent";
         sb_bool(ret, SPIF_MAP_SET(M, SPIF_OBJ(p), (spif_obj_t) NULL));
     } else if (OP("set_own_key")) {
         spif_objpair_t p = own_pair(M, vh_int(st->args[0]));
-        spif_obj_t v = cu_mk(vh_int(st->args[1]));
+        spif_obj_t v = cu_mkc(vh_int(st->args[1]), cu_clsarg(st, 2));
         if (SPIF_OBJPAIR_ISNULL(p)) { SPIF_OBJ_DEL(v); return "set_own_key:key_absent"; }
         sb_bool(ret, SPIF_MAP_SET(M, p->key, v));
         cu_scribble(v); SPIF_OBJ_DEL(v);
@@ -321,9 +361,10 @@ static const char *vh_step(const vh_step_t *st, vh_sb *ret, vh_sb *state) {
         if (!SPIF_OBJ_ISNULL(r)) SPIF_OBJ_DEL(r);
     } else if (OP("fill_set")) {
         long lo = vh_int(st->args[0]), hi = vh_int(st->args[1]), stp = vh_int(st->args[2]), val = vh_int(st->args[3]), k, rep = 0;
+        long mix = cu_clsarg(st, 4);
         if (stp < 1) return "fill_set:bad_step";
         for (k = lo; k <= hi; k += stp) {
-            spif_obj_t ko = cu_mk(k), vo = cu_mk(val);
+            spif_obj_t ko = cu_mkc(k, cu_mixcls(mix, k)), vo = cu_mkc(val, cu_mixcls(mix, k));
             if (SPIF_MAP_SET(M, ko, vo)) rep++;
             cu_scribble(ko); cu_scribble(vo);
             SPIF_OBJ_DEL(ko); SPIF_OBJ_DEL(vo);
@@ -336,22 +377,22 @@ static const char *vh_step(const vh_step_t *st, vh_sb *ret, vh_sb *state) {
         SPIF_OBJ_DEL(HK); SPIF_OBJ_DEL(HV); HK = HV = (spif_obj_t) NULL; held = 0;
         sb_bool(ret, 1);
     } else if (OP("remove")) {
-        spif_obj_t probe = cu_mk(vh_int(st->args[0])), r = SPIF_MAP_REMOVE(M, probe);
+        spif_obj_t probe = cu_mkc(vh_int(st->args[0]), cu_clsarg(st, 1)), r = SPIF_MAP_REMOVE(M, probe);
         sb_pair(ret, r);
         SPIF_OBJ_DEL(probe);
         if (!SPIF_OBJ_ISNULL(r)) SPIF_OBJ_DEL(r);   /* handed back: the caller's to delete */
     } else if (OP("done")) {
         sb_bool(ret, SPIF_MAP_DONE(M));
     } else if (OP("get")) {
-        spif_obj_t probe = cu_mk(vh_int(st->args[0]));
+        spif_obj_t probe = cu_mkc(vh_int(st->args[0]), cu_clsarg(st, 1));
         sb_int(ret, cu_val(SPIF_MAP_GET(M, probe)));
         SPIF_OBJ_DEL(probe);
     } else if (OP("has_key")) {
-        spif_obj_t probe = cu_mk(vh_int(st->args[0]));
+        spif_obj_t probe = cu_mkc(vh_int(st->args[0]), cu_clsarg(st, 1));
         sb_bool(ret, SPIF_MAP_HAS_KEY(M, probe));
         SPIF_OBJ_DEL(probe);
     } else if (OP("has_value")) {
-        spif_obj_t probe = cu_mk(vh_int(st->args[0]));
+        spif_obj_t probe = cu_mkc(vh_int(st->args[0]), cu_clsarg(st, 1));
         sb_bool(ret, SPIF_MAP_HAS_VALUE(M, probe));
         SPIF_OBJ_DEL(probe);
     } else if (OP("count")) {
@@ -377,6 +418,7 @@ static const char *vh_step(const vh_step_t *st, vh_sb *ret, vh_sb *state) {
         if (B == A) return "dup_returned_same_object";
         if (SPIF_OBJ_CLASS(B) != SPIF_OBJ_CLASS(A)) return "dup_class_differs";
         if (strcmp((const char *) SPIF_MAP_TYPE(B), (const char *) SPIF_MAP_TYPE(A))) return "dup_type_differs";
+        if ((inv = dup_pairs_equal())) return inv;
         sb_bool(ret, 1);
     } else if (OP("b_del")) {
         sb_bool(ret, SPIF_MAP_DEL(B)); B = (spif_map_t) NULL;
@@ -410,6 +452,7 @@ int main(int argc, char **argv) {
     if (NK < 1 || NK > 32000 || NV < 1 || (!compact && NK > 16000)) { fprintf(stderr, "bad NK/NV\n"); return 2; }
     if (cu_enc_arg == 2 && NK > 253) { fprintf(stderr, "family 2 needs NK <= 253\n"); return 2; }
     cu_N = NK;
+    cu_warm_libc();
     libast_set_program_name("map_replay");
     DEBUG_LEVEL = 0;
     return vh_main(argc, argv, 6);
